@@ -243,7 +243,7 @@ num_hashes : u8 , num_buckets : u32 , seed : u64 , seed_hash : u16 , total_weigh
 
 spec fn fits<T: CountMinValue>(c: T, w: T) -> bool { T::in_range(c.val() + w.val()) }
 // per-row hash seeds derived from the sketch seed (make_hash_seeds)
-pub uninterp spec fn seeds_spec(seed: u64, n: u8) -> Seq<u64>;
+pub uninterp spec fn seeds_spec(seed: u64, n: u8) -> Seq<u64>;   // = cm_seeds_spec of contracts/hash_murmur.rs, where make_hash_seeds is verified
 
 impl<T: CountMinValue> CountMinSketch<T> {
     spec fn wf(&self) -> bool {
